@@ -71,6 +71,15 @@ impl<'a> Printer<'a> {
         }
     }
 
+    /// blanks or a block comment between the tokens of a numeric value (both are ignored there)
+    fn num_sep(&mut self) -> String {
+        if !self.plain && self.tape.chance(1, 8) {
+            self.f.comments += 1;
+            return [" [- c -] ", "[- c -]", " [- about -]"][self.tape.pick(3) as usize].to_string();
+        }
+        self.blanks()
+    }
+
     fn maybe_block_comment(&mut self, allow_multiline: bool) -> String {
         if self.plain || !self.tape.chance(1, 10) {
             return String::new();
@@ -119,14 +128,14 @@ impl<'a> Printer<'a> {
             NumM::Int(i) => i.to_string(),
             NumM::Dec(s) => s.clone(),
             NumM::Frac(a, b) => {
-                let s1 = self.blanks();
-                let s2 = self.blanks();
+                let s1 = self.num_sep();
+                let s2 = self.num_sep();
                 format!("{a}{s1}/{s2}{b}")
             }
             NumM::Mixed(w, a, b) => {
-                let s1 = self.blanks();
-                let s2 = self.blanks();
-                let s0 = self.blanks();
+                let s1 = self.num_sep();
+                let s2 = self.num_sep();
+                let s0 = self.num_sep();
                 format!("{w} {s0}{a}{s1}/{s2}{b}")
             }
         }
@@ -137,8 +146,8 @@ impl<'a> Printer<'a> {
             ValM::Num(n) => self.num(n),
             ValM::Range(a, b) => {
                 let a = self.num(a);
-                let s1 = self.blanks();
-                let s2 = self.blanks();
+                let s1 = self.num_sep();
+                let s2 = self.num_sep();
                 let b = self.num(b);
                 format!("{a}{s1}-{s2}{b}")
             }
